@@ -138,29 +138,37 @@ type c12Server struct {
 	seed     int64
 	thorough bool
 	only     int // replay: judge only this message of the item (the ones before it rebuild the state); -1 = all
+	// side: "server" = messages go to the listener's registered callback; "handler" = they go to
+	// NetConnectionServerCommunicator.handleRequest with a scripted ResponseWriter (zz_verif_c12_handler_test.go)
+	side string
 }
+
+func (s *c12Server) handler() bool { return s.side == "handler" }
 
 // runItem runs the hostile messages [0, upTo] of one item against a fresh fixture.
 func (s *c12Server) runItem(item int, upTo int) {
 	rec := s.rec
 	domain := c12Domains[item%len(c12Domains)]
 	qt := c12SessionQ[(item/len(c12Domains))%len(c12SessionQ)]
-	rec.Mark(c12Case{Side: "server", Seed: s.seed, Thorough: s.thorough, Item: item, Index: -1, Domain: domain, Qtype: qt})
-	fx, err := c12NewFx(domain, qt, s.seed*4096+int64(item))
+	rec.Mark(c12Case{Side: s.side, Seed: s.seed, Thorough: s.thorough, Item: item, Index: -1, Domain: domain, Qtype: qt})
+	fx, err := c12NewFxVia(domain, qt, s.seed*4096+int64(item), s.handler())
 	if err != nil {
 		// a handshake over a transparent path that fails is some other property's subject; here nothing was observed
-		rec.Inconclusive("fixture: the victim/hostile sessions could not be established: "+err.Error(), c12Case{Side: "server", Seed: s.seed, Thorough: s.thorough, Item: item, Index: -1, Domain: domain, Qtype: qt})
+		rec.Inconclusive("fixture: the victim/hostile sessions could not be established: "+err.Error(), c12Case{Side: s.side, Seed: s.seed, Thorough: s.thorough, Item: item, Index: -1, Domain: domain, Qtype: qt})
 		return
 	}
 	defer fx.close()
 	specs := c12ItemSpecs(s.seed, s.thorough, item)
+	if s.handler() {
+		specs = c12HandlerSpecs(s.seed, s.thorough, item)
+	}
 	if upTo >= 0 && upTo+1 < len(specs) {
 		specs = specs[:upTo+1]
 	}
 	const round = 128
 	inRound := false
 	itemCase := func(i int) c12Case {
-		return c12Case{Side: "server", Seed: s.seed, Thorough: s.thorough, Item: item, Index: i, Domain: domain, Qtype: qt}
+		return c12Case{Side: s.side, Seed: s.seed, Thorough: s.thorough, Item: item, Index: i, Domain: domain, Qtype: qt}
 	}
 	endRound := func(i int) bool {
 		if !inRound {
@@ -180,8 +188,8 @@ func (s *c12Server) runItem(item int, upTo int) {
 			rec.Violation("server:session-broken-after-hostile-batch:"+stage, itemCase(i), map[string]interface{}{"failure": fail, "batch": fmt.Sprintf("messages %d..%d of the item", i-i%round, i)})
 			return false
 		}
-		rec.Stat("server_victim_bytes_verified", c12C2SBytes+c12S2CBytes)
-		rec.Stat("server_rounds_with_victim_transfer_verified", 1)
+		rec.Stat(s.side+"_victim_bytes_verified", c12C2SBytes+c12S2CBytes)
+		rec.Stat(s.side+"_rounds_with_victim_transfer_verified", 1)
 		return true
 	}
 	for i := range specs {
@@ -219,15 +227,20 @@ func (s *c12Server) one(fx *c12Fx, item, idx int, sp *c12Spec) bool {
 	m := fx.build(sp)
 	wire, err := m.Pack()
 	if err != nil {
-		rec.Stat("server_names_not_representable_on_the_wire", 1)
+		rec.Stat(s.side+"_names_not_representable_on_the_wire", 1)
+		return true
+	}
+	pfx := s.side + "_"
+	if s.handler() && !c12Accepted(wire) {
+		rec.Stat(pfx+"queries_rejected_by_miekg_accept_function(not judged)", 1)
 		return true
 	}
 	q := new(mdns.Msg)
 	if err := q.Unpack(wire); err != nil {
-		rec.Stat("server_queries_rejected_by_unpack", 1)
+		rec.Stat(pfx+"queries_rejected_by_unpack", 1)
 		return true
 	}
-	desc := c12Case{Side: "server", Seed: s.seed, Thorough: s.thorough, Item: item, Index: idx, Domain: fx.domain, From: sp.From, Spec: sp,
+	desc := c12Case{Side: s.side, Seed: s.seed, Thorough: s.thorough, Item: item, Index: idx, Domain: fx.domain, From: sp.From, Spec: sp,
 		Name: c12Clip(q.Question[0].Name, 300), Qtype: q.Question[0].Qtype, Qclass: q.Question[0].Qclass, WireHex: hex.EncodeToString(wire)}
 	addr := c12From(sp.From)
 
@@ -243,7 +256,7 @@ func (s *c12Server) one(fx *c12Fx, item, idx int, sp *c12Spec) bool {
 	// is the subject of the bomb children: in this process it would take the other cases down with it
 	if id, size := c12ProbeSize(data); id >= 0 && size >= 1<<22 && id < len(fx.lst.connections) {
 		if u := fx.lst.connections[id]; u != nil && u.remoteAddress.String() == addr.String() {
-			rec.Stat("server_big_probes_left_to_the_bomb_children", 1)
+			rec.Stat(pfx+"big_probes_left_to_the_bomb_children", 1)
 			return true
 		}
 	}
@@ -260,26 +273,33 @@ func (s *c12Server) one(fx *c12Fx, item, idx int, sp *c12Spec) bool {
 	if sp.Kind == "cmd" {
 		nameKind = "cmd:" + sp.Body
 	}
-	rec.Seen("server_name_kind", nameKind+"/"+sp.Sfx)
-	rec.Seen("server_first_character", strconv.QuoteToASCII(string(sp.Cmd)))
-	rec.Seen("server_qtype", strconv.Itoa(int(sp.Qtype)))
-	rec.Seen("server_qclass", strconv.Itoa(int(sp.Qclass)))
-	rec.Seen("server_origin", sp.From+"/uid="+sp.Uid)
-	rec.Seen("server_request_class", class)
-	rec.Stat("server_messages", 1)
+	rec.Seen(pfx+"name_kind", nameKind+"/"+sp.Sfx)
+	rec.Seen(pfx+"first_character", strconv.QuoteToASCII(string(sp.Cmd)))
+	rec.Seen(pfx+"qtype", strconv.Itoa(int(sp.Qtype)))
+	rec.Seen(pfx+"qclass", strconv.Itoa(int(sp.Qclass)))
+	rec.Seen(pfx+"origin", sp.From+"/uid="+sp.Uid)
+	rec.Seen(pfx+"request_class", class)
+	rec.Stat(pfx+"messages", 1)
 	if res.timedOut {
-		rec.Case("server/"+desc.WireHex+"/"+sp.From, false)
+		rec.Case(s.side+"/"+desc.WireHex+"/"+sp.From, false)
 		rec.Inconclusive("a hostile message did not return from onMessage within the watchdog", desc)
 		fx.broken = true
 		return false
 	}
-	rec.Case("server/"+desc.WireHex+"/"+sp.From, true)
-	rec.StatMax("server_alloc_per_message", int64(res.alloc))
+	rec.Case(s.side+"/"+desc.WireHex+"/"+sp.From, true)
+	rec.StatMax(pfx+"alloc_per_message", int64(res.alloc))
 	outcome := ""
 	switch {
 	case res.panicked:
 		outcome = "panic"
-		rec.Violation("server:panic@"+res.site+":"+class, desc, map[string]string{"panic": c12Clip(res.val, 300), "consequence": "handleRequest does not recover: the server process dies"})
+		sig := "server:panic@" + res.site + ":" + class
+		if s.handler() {
+			// (what the query carried besides its question belongs to the class: the same name without it may be harmless)
+			sig += ":query-carries=" + c12AdditionalClass(q)
+		}
+		rec.Violation(sig, desc, map[string]string{"panic": c12Clip(res.val, 300), "consequence": "handleRequest does not recover: the server process dies"})
+	case res.err == errC12NothingSent:
+		outcome = "ignored(handleRequest sent nothing)"
 	case res.err != nil:
 		outcome = "ignored(error returned, nothing sent)"
 	case res.resp == nil:
@@ -297,11 +317,27 @@ func (s *c12Server) one(fx *c12Fx, item, idx int, sp *c12Spec) bool {
 		outcome = cls
 		under := strings.HasSuffix(strings.ToLower(q.Question[0].Name), "."+strings.ToLower(fx.domain)+".")
 		if !isErr && !under {
-			rec.Seen("server_success_answer_to_name_outside_domain(not judged)", cls)
+			rec.Seen(pfx+"success_answer_to_name_outside_domain(not judged)", cls)
 		}
 	}
-	rec.Seen("server_outcome", outcome)
-	rec.Stat("server_outcome:"+strings.SplitN(outcome, ":", 2)[0], 1)
+	rec.Seen(pfx+"outcome", outcome)
+	if s.handler() {
+		ec := c12EnvClass(q)
+		rec.Seen("handler_envelope", sp.Env)
+		rec.Seen("handler_query_carries", ec)
+		rec.Seen("handler_query_carries_x_outcome", ec+" -> "+strings.SplitN(outcome, ":", 2)[0])
+		if res.answer != nil && q.IsTsig() != nil {
+			if res.answer.IsTsig() != nil {
+				rec.Stat("handler_answers_to_tsig_queries_carrying_tsig", 1)
+			} else {
+				rec.Stat("handler_answers_to_tsig_queries_without_tsig", 1)
+			}
+		}
+		if res.writes > 1 {
+			rec.Stat("handler_more_than_one_datagram_written(not judged)", 1)
+		}
+	}
+	rec.Stat(pfx+"outcome:"+strings.SplitN(outcome, ":", 2)[0], 1)
 	if res.alloc > c12AllocBound {
 		rec.Violation("server:alloc-unbounded:"+c12FieldClass(data), desc, map[string]interface{}{"TotalAlloc_delta_bytes": res.alloc, "bound": c12AllocBound})
 	}
@@ -315,9 +351,9 @@ func (s *c12Server) one(fx *c12Fx, item, idx int, sp *c12Spec) bool {
 		rec.Violation(fmt.Sprintf("server:session-disturbed:%s:%s:%s", field, class, idc), desc, map[string]string{"before": fx.snap, "after": now})
 		fx.snap = now
 	}
-	rec.Stat("server_victim_snapshots_compared", 1)
+	rec.Stat(pfx+"victim_snapshots_compared", 1)
 	if idx%97 == 0 {
-		rec.Sample(map[string]interface{}{"side": "server", "name": desc.Name, "qtype": desc.Qtype, "from": sp.From, "seen_by_server": desc.Request, "outcome": outcome, "alloc": res.alloc})
+		rec.Sample(map[string]interface{}{"side": s.side, "name": desc.Name, "qtype": desc.Qtype, "from": sp.From, "seen_by_server": desc.Request, "outcome": outcome, "alloc": res.alloc})
 	}
 	return true
 }
@@ -338,8 +374,8 @@ func TestVerifC12(t *testing.T) {
 			t.Fatal(err)
 		}
 		switch d.Side {
-		case "server":
-			(&c12Server{rec: rec, seed: d.Seed, thorough: d.Thorough, only: d.Index}).runItem(d.Item, d.Index)
+		case "server", "handler":
+			(&c12Server{rec: rec, seed: d.Seed, thorough: d.Thorough, only: d.Index, side: d.Side}).runItem(d.Item, d.Index)
 		case "client":
 			c12ClientReplay(rec, &d)
 		case "bomb":
@@ -352,7 +388,8 @@ func TestVerifC12(t *testing.T) {
 		return
 	}
 
-	srv := &c12Server{rec: rec, seed: rec.Seed(), thorough: rec.Thorough(), only: -1}
+	srv := &c12Server{rec: rec, seed: rec.Seed(), thorough: rec.Thorough(), only: -1, side: "server"}
+	hnd := &c12Server{rec: rec, seed: rec.Seed(), thorough: rec.Thorough(), only: -1, side: "handler"}
 	pl := c12ServerPlan(rec.Thorough())
 	n := 0
 	for item := 0; item < pl.items; item++ {
@@ -376,6 +413,12 @@ func TestVerifC12(t *testing.T) {
 	for item := 0; item < c12RepeatItems(); item++ {
 		if rec.Mine(n) {
 			c12RepeatRun(rec, rec.Seed(), rec.Thorough(), item, nil)
+		}
+		n++
+	}
+	for item := 0; item < c12HandlerPlan(rec.Thorough()).items; item++ {
+		if rec.Mine(n) {
+			hnd.runItem(item, -1)
 		}
 		n++
 	}
